@@ -118,6 +118,27 @@ func tilePolygon(s *core.Source) orb.Polygon {
 	cx, cy := tileCenter(s)
 	p := orb.Polygon{TileRing(s, cx, cy, true)}
 	s.Repeat(0, 1, 3, "hole", func(int) { p = append(p, TileRing(s, cx, cy, false)) })
+	switch s.Pick([]int{4, 1, 1}, "ringform") {
+	case 1:
+		// open rings: the closing vertex left out (the format drops it anyway; it must come back)
+		for i := range p {
+			p[i] = p[i][: len(p[i])-1 : len(p[i])-1]
+		}
+	case 2:
+		// open rings carved out of one coordinate array, each followed directly by the next
+		// (how a caller that parsed a flat coordinate list holds them): cap > len
+		var flat []orb.Point
+		for _, r := range p {
+			flat = append(flat, r[:len(r)-1]...)
+		}
+		flat = append(flat, orb.Point{-99, -99}) // the last ring has room behind it as well
+		off := 0
+		for i, r := range p {
+			n := len(r) - 1
+			p[i] = orb.Ring(flat[off : off+n])
+			off += n
+		}
+	}
 	return p
 }
 
@@ -145,6 +166,9 @@ func TileGeometry(s *core.Source, kind int) orb.Geometry {
 	case TMultiPoint:
 		return orb.MultiPoint(tilePoints(s, 1, 6))
 	case TLineString:
+		if s.Chance(1, 12, "onevertex") {
+			return orb.LineString(tilePoints(s, 1, 1)) // degenerate, but it has a MoveTo and comes back as written
+		}
 		return orb.LineString(tilePoints(s, 2, 8))
 	case TMultiLineString:
 		var m orb.MultiLineString
